@@ -522,11 +522,16 @@ private:
                                                                          alloc);
 
         auto* block_iterator = block_handling_task->block_iteration_space.begin();
-        for (; !(this->my_first == this->my_last) && block_handling_task->my_size < block_handling_type::max_block_size; ++this->my_first) {
-            // Move semantics are automatically used when supported by the iterator
-            new (block_iterator++) Item(*this->my_first);
-            ++block_handling_task->my_size;
-        }
+        try_call([&] {
+            for (; !(this->my_first == this->my_last) && block_handling_task->my_size < block_handling_type::max_block_size; ++this->my_first) {
+                // Move semantics are automatically used when supported by the iterator
+                new (block_iterator++) Item(*this->my_first);
+                ++block_handling_task->my_size;
+            }
+        }).on_exception([&] {
+            // The block task will never run: release its reference to the wait context and destroy the items copied so far
+            block_handling_task->finalize(ed);
+        });
 
         // Do not access this after spawn to avoid races
         spawn(*this, this->my_execution_context);
